@@ -153,6 +153,34 @@ pub fn dispatch(mode: &str, f: &[Vec<u8>]) -> Option<R> {
                 Err(e) => Err(ekind(&e)),
             }
         }
+        // the value as the body of a new indirect object, written by the real writer (Updater::create + Storage::save), then the
+        // file re-loaded and the object resolved; fields out: value, id, gen, the bytes the writer appended in front of the xref section
+        "save_value" => {
+            use pdf::file::{Storage, NoCache, NoLog, Trailer};
+            use pdf::object::Updater;
+            let p = match prim_of_canon(fld(f, 0)) { Some(p) => p, None => return Some(Err("BADCANON".into())) };
+            let base = fld(f, 1).to_vec();
+            let n0 = base.len();
+            let mut st = match Storage::with_cache(base, ParseOptions::strict(), NoCache, NoCache, NoLog) { Ok(s) => s, Err(e) => return Some(Err(ekind(&e))) };
+            let td = match st.load_storage_and_trailer() { Ok(t) => t, Err(e) => return Some(Err(ekind(&e))) };
+            let mut trailer = match Trailer::from_primitive(Primitive::Dictionary(td), &st.resolver()) { Ok(t) => t, Err(e) => return Some(Err(ekind(&e))) };
+            let r = match st.create(p) { Ok(rc) => rc.get_ref().get_inner(), Err(e) => return Some(Err(ekind(&e))) };
+            let bytes = match st.save(&mut trailer) { Ok(b) => b.to_vec(), Err(e) => return Some(Err(ekind(&e))) };
+            // startxref <pos> %%EOF : the appended object text is bytes[n0 .. pos]
+            let tail = &bytes[bytes.len().saturating_sub(64)..];
+            let k = match tail.windows(9).rposition(|w| w == b"startxref") { Some(k) => k, None => return Some(Err("NOSTARTXREF".into())) };
+            let num: String = tail[k + 9..].iter().skip_while(|c| c.is_ascii_whitespace()).take_while(|c| c.is_ascii_digit()).map(|&c| c as char).collect();
+            let pos: usize = match num.parse() { Ok(n) => n, Err(_) => return Some(Err("BADSTARTXREF".into())) };
+            let text = bytes.get(n0..pos).map(|x| x.to_vec()).unwrap_or_default();
+            let st2 = match Storage::with_cache(bytes, ParseOptions::strict(), NoCache, NoCache, NoLog) { Ok(s) => s, Err(e) => return Some(Err(ekind(&e))) };
+            let mut st2 = st2;
+            if let Err(e) = st2.load_storage_and_trailer() { return Some(Err(ekind(&e))); }
+            let rs = st2.resolver();
+            match rs.resolve(r) {
+                Ok(q) => Ok(vec![canon(&q, &rs), r.id.to_string().into_bytes(), r.gen.to_string().into_bytes(), text]),
+                Err(e) => Err(ekind(&e)),
+            }
+        }
         _ => return None,
     })
 }
